@@ -5,6 +5,7 @@ import (
 	"encoding/json"
 	"fmt"
 	"strconv"
+	"strings"
 )
 
 // Fault catalogue of the channel between attester and verifier (seam S8) and
@@ -27,6 +28,7 @@ const (
 	hdrEmptyPayload
 	hdrRecodeProt
 	hdrTagPayload
+	hdrTreeProt
 	hdrVariants
 )
 
@@ -196,6 +198,13 @@ func applyNetFault(tok []byte, op Op, donor []byte) ([]byte, bool) {
 			np = append(np, encodeHeadW(h.Major, h.Arg, 1)...)
 			np = append(np, p.Prot[h.Off+1:]...)
 			return asm([]byte{0xd2}, cborBstr(np), unprot, payload, sig), true
+		case hdrTreeProt:
+			// structural damage inside the protected header map (e.g. alg becomes a text string)
+			np, ok := applyTreeFault(p.Prot, op.B, op.C)
+			if !ok {
+				return out, false
+			}
+			return asm([]byte{0xd2}, cborBstr(np), unprot, payload, sig), true
 		case hdrTagPayload:
 			// the same claims behind a tag the claims decoder skips (or not): the signed bytes differ
 			if !p.PayloadIsBstr {
@@ -272,6 +281,7 @@ func genNetFault(r *Rng, kinds []string, nSlots int) Op {
 	case "net.hdr":
 		op.A = r.Intn(hdrVariants)
 		op.B = r.Intn(8)
+		op.C = r.Intn(64)
 	case "net.leninflate":
 		op.A = r.Intn(64)
 		op.B = r.Intn(len(inflateSizes))
@@ -342,13 +352,44 @@ func applyTreeFault(payload []byte, a, b int) ([]byte, bool) {
 	if err != nil {
 		return payload, false
 	}
-	nv := len(treeSubst)
-	v := abs(b) % (nv + 6)
 	splice := func(off, end int, with []byte) []byte {
 		r := append([]byte{}, payload[:off]...)
 		r = append(r, with...)
 		return append(r, payload[end:]...)
 	}
+	nv := len(treeSubst)
+	// text / byte strings: a quarter of the time edit the value into a close neighbour
+	// instead of replacing it (one more / one fewer byte, a trailing slash, a space, other case)
+	if (h.Major == 2 || h.Major == 3) && h.Info != 31 && abs(b)%4 == 3 {
+		content := payload[h.Off+h.HLen : iend]
+		var nc []byte
+		switch (abs(b) / 4) % 8 {
+		case 0:
+			nc = append(append([]byte{}, content...), '/')
+		case 1:
+			nc = append([]byte{' '}, content...)
+		case 2:
+			nc = append(append([]byte{}, content...), ' ')
+		case 3:
+			nc = bytes.ToLower(content)
+		case 4:
+			nc = bytes.ToUpper(content)
+		case 5:
+			if len(content) > 0 {
+				nc = append([]byte{}, content[:len(content)-1]...)
+			} else {
+				nc = []byte{0}
+			}
+		case 6:
+			nc = append(append([]byte{}, content...), 0x00)
+		default:
+			nc = append(append([]byte{}, content...), content...)
+		}
+		if !bytes.Equal(nc, content) {
+			return splice(h.Off, iend, append(encodeHead(h.Major, uint64(len(nc))), nc...)), true
+		}
+	}
+	v := abs(b) % (nv + 6)
 	if v < nv {
 		return splice(h.Off, iend, treeSubst[v]), true
 	}
@@ -593,6 +634,35 @@ func applyJSONFault(doc []byte, a, b int) ([]byte, bool) {
 	root.all(&nodes)
 	n := nodes[abs(a)%len(nodes)]
 	ns := len(jsonSubst)
+	if n.kind == 'v' && len(n.raw) >= 2 && n.raw[0] == '"' && abs(b)%4 == 3 {
+		if str, err := strconv.Unquote(n.raw); err == nil {
+			var ns2 string
+			switch (abs(b) / 4) % 6 {
+			case 0:
+				ns2 = str + "/"
+			case 1:
+				ns2 = " " + str
+			case 2:
+				ns2 = strings.ToLower(str)
+			case 3:
+				ns2 = strings.ToUpper(str)
+			case 4:
+				if len(str) > 0 {
+					ns2 = str[:len(str)-1]
+				} else {
+					ns2 = "A"
+				}
+			default:
+				ns2 = str + str
+			}
+			if ns2 != str {
+				*n = jnode{kind: 'v', raw: strconv.Quote(ns2)}
+				var sb bytes.Buffer
+				root.write(&sb)
+				return sb.Bytes(), true
+			}
+		}
+	}
 	v := abs(b) % (ns + 3)
 	if v >= ns && (n.kind != 'o' || len(n.keys) == 0) {
 		v = abs(b) % ns
